@@ -114,7 +114,7 @@ def modelDynamic (rawMode : Bool) (D : Defects) (T : Table) (op : OpDef) (raw : 
   let valid :=
     varDefaultsValid T op.vars
       && fs.all (fun f => match T.field? f.2.1 with
-          | some sig => fieldValid T raw sig f.2.2
+          | some sig => fieldValid D T raw sig f.2.2
           | none => false)
       && (D.varValueNotCoerced || varValuesValid T op.vars raw)
   if !valid then { status := .reqerr, fields := fs.map (fun f => (f.1, .notInvoked)) }
@@ -186,11 +186,12 @@ def judge (known : List String) (case impl : String) : JudgeOut :=
       | [op] =>
         let has := fun (id : String) => known.contains id
         let ids := ["C06-omitted-variable-skips-argument-default", "C06-null-becomes-singleton-list",
-                    "C06-variable-values-not-coerced"]
+                    "C06-variable-values-not-coerced", "C06-literal-unchecked-beside-unsupplied-variable"]
         let mk : Option String → Defects := fun off =>
           { omittedVarSkipsArgDefault := has ids[0]! && off ≠ some ids[0]!,
             nullToSingletonList := has ids[1]! && off ≠ some ids[1]!,
-            varValueNotCoerced := has ids[2]! && off ≠ some ids[2]! }
+            varValueNotCoerced := has ids[2]! && off ≠ some ids[2]!,
+            literalUncheckedBesideVar := has ids[3]! && off ≠ some ids[3]! }
         let dynId := "C06-dynamic-args-not-coerced"
         let isDyn := stream = "dynamic"
         let model := fun (off : Option String) =>
